@@ -14,7 +14,24 @@ RULE = (
 EXPLANATION = ('Theorems so far (first layer, about the model of visit_Subscript): a selector that is not an int/str constant leaves the subscript intact around the simplified children (simp_sub_nonconst), a negative constant index leaves a tuple literal intact (simp_sub_negative), a non-negative constant index returns the component or raises the dedicated index error exactly when it is past the end (simp_sub_tuple_const), an absent key leaves a well-formed subscript (simp_sub_dict_absent). Termination / no-internal-error for the whole grammar is in progress. Correspondence: as C02 with the selector stream. Oracle: exception class of the real call (only FuncADLIndexError, and only when some constant non-negative index can be past the end of a literal), ast.unparse + compile of the result, ev equality (semantically intact).')
 
 
+def comprehension_probe(ctx, key):
+    "the known finding: a comprehension that reaches the simplifier comes out as an AST that does not compile"
+    import ast
+    import copy
+
+    from props.c02 import COMP_PROBE
+
+    a = simplify.parse_query(COMP_PROBE)
+    try:
+        out = simplify.run_simplifier(copy.deepcopy(a))
+        compile(ast.fix_missing_locations(ast.Expression(copy.deepcopy(out))), "<simplified>", "eval")
+    except Exception as e:
+        ctx.violate({"src": COMP_PROBE, "error": f"{type(e).__name__}: {e}"[:200]},
+                    "C18: the simplified AST of a query with a comprehension cannot be compiled", key=key)
+
+
 def run(ctx):
+    comprehension_probe(ctx, "C18-comprehension-target-load-context")
     n = ctx.n(1000, 50000)
     done = 0
     while done < n:
